@@ -206,7 +206,7 @@ Definition construct (c : cls) (args : list pyarg) : option pexc :=
    unpickling calls MaybeEncodingError( *args ) again.  Set to [true] when /repo gives
    the class a __reduce__ that restores the stored strings (the lemma
    EInfoProofs.gen_mee_reduce ties this line to the code on every run).          *)
-Definition mee_repaired : bool := false.
+Definition mee_repaired : bool := true.
 (* ================================================================== *)
 
 (* pickle.loads(pickle.dumps(x)) for an exception object:
